@@ -311,6 +311,14 @@ func runConsulStorePlan(c *pbt.Case, p ConsulStorePlan) {
 	}
 	var lastSample, graceUntil time.Time // (see the election unit: a stalled process proves nothing about durations)
 	sample := func(when string) {
+		// The key's holder is read before and after the nodes are asked: a node that takes
+		// the key between one read and its own answer holds it at the second read, one that
+		// has just passed it on held it at the first.
+		h0, _ := holderName()
+		prim := make([]bool, len(nodes))
+		for i, n := range nodes {
+			prim[i] = n.Up && n.Store.IsPrimary()
+		}
 		h, _ := holderName()
 		now := time.Now()
 		if !lastSample.IsZero() && now.Sub(lastSample) > 2*time.Second {
@@ -323,6 +331,9 @@ func runConsulStorePlan(c *pbt.Case, p ConsulStorePlan) {
 				lastHeld[n.Name] = now
 			}
 		}
+		if h0 != "" {
+			lastHeld[h0] = now
+		}
 		if h != "" {
 			lastHeld[h] = now
 		}
@@ -330,12 +341,12 @@ func runConsulStorePlan(c *pbt.Case, p ConsulStorePlan) {
 			if !n.Up {
 				continue
 			}
-			if n.Store.IsPrimary() && h != n.Name {
+			if prim[i] && h != n.Name {
 				if t0, ok := lastHeld[n.Name]; !ok || now.Sub(t0) > slack {
 					c.Failf("C08/consul/primary-without-session", "%s: node %s reports itself primary; the Consul key is held by %q and was last held by %s %s ago", when, n.Name, h, n.Name, now.Sub(t0).Round(time.Millisecond))
 				}
 			}
-			if n.Store.IsPrimary() && !p.Candidates[i] {
+			if prim[i] && !p.Candidates[i] {
 				// only a handoff may make a non-candidate primary
 				c.Label("non-candidate-primary-by-handoff")
 			}
